@@ -399,3 +399,40 @@ func verifC10Admin() {
 		verifrt.Assert(t.Depth() == 1 && ch.Depth() == 1 && t.IsPaused() == startPaused && ch.IsPaused() == startPaused && persisted == 0, "refused-admin-request-changes-nothing")
 	}
 }
+
+// The `binary` argument of /mpub selects the mode by its VALUE: true / 1 = length-prefixed binary
+// batch, false / 0 (or no argument) = newline-separated text. A text body sent with binary=false
+// is split into its lines; the same bytes sent with binary=true are parsed as a binary batch.
+func VerifC10_MpubBinaryArgument() { verifrt.Atomic(verifC10MpubBinaryArg) }
+
+func verifC10MpubBinaryArg() {
+	o := verifOpts()
+	o.MaxMsgSize = 4
+	o.MaxBodySize = 32
+	o.MemQueueSize = 6
+	s, n := verifHTTPServer(o)
+	arg := []string{"", "&binary=false", "&binary=0", "&binary=true", "&binary=1"}[verifrt.Choice("binary-arg", 5)]
+	binary := arg == "&binary=true" || arg == "&binary=1"
+	c := verifrt.Byte("c")
+	verifrt.Assume(c != '\n')
+	var body []byte
+	if binary {
+		body = append(verifBE32(2), append(verifBE32(1), c)...)
+		body = append(body, append(verifBE32(1), 'z')...)
+	} else {
+		body = []byte{c, '\n', 'z'}
+	}
+	req := verifReq("POST", "/mpub", "topic=t"+arg, body, false, int64(len(body)))
+	status := verifStatus(s.doMPUB(nil, req, nil))
+	verifrt.Assert(status == 200, "mpub-in-the-requested-mode-is-accepted")
+	t, _ := n.GetExistingTopic("t")
+	if t != nil {
+		msgs := verifTopicMessages(t)
+		verifrt.Assert(len(msgs) == 2, "mpub-mode-follows-the-value-of-the-binary-argument")
+		if len(msgs) == 2 {
+			verifrt.Assert(len(msgs[0].Body) == 1 && msgs[0].Body[0] == c && string(msgs[1].Body) == "z", "mpub-bodies-exact-in-the-requested-mode")
+		}
+	}
+	verifrt.Reach("explicit-text-mode", arg == "&binary=false")
+	verifrt.Reach("binary-mode", binary)
+}
